@@ -257,6 +257,8 @@ theorem handleMetadataData_idlAll (m : M) (k i len : Nat) (g : Bool) (h : IdlAll
     split
     · exact hcl _ h
     split
+    · exact hcl _ h
+    split
     · refine (hmap { d with pending := d.pending - 1, blocks := d.blocks.set i (some g) } rfl).of_eq ?_
       simp
     split
